@@ -1,7 +1,8 @@
 """usage: seedsave.py <seed id> <name> <property> <needs> <detected-by> <ran>  - files a confirmed seeded change under /verif/seeded/<name>/"""
 import json, os, shutil, sys
 sid, name, prop, needs, detected, ran = sys.argv[1:7]
-src = "/tmp/seedout-%s" % sid
+import os as _os
+src = _os.environ.get("SEEDOUT") or "/tmp/seedout-%s" % sid
 dst = "/verif/seeded/%s" % name
 os.makedirs(dst, exist_ok=True)
 for f in os.listdir(src):
